@@ -19,3 +19,13 @@ func (v *VerifSubs) Publish(channel string, msg PubSubMessage) { v.s.Publish(cha
 func (v *VerifSubs) Confirm(s PubSubSubscription)              { v.s.Confirm(s) }
 func (v *VerifSubs) Unsubscribe(s PubSubSubscription)          { v.s.Unsubscribe(s) }
 func (v *VerifSubs) Close()                                    { v.s.Close() }
+
+func (v *VerifSubs) Is(obj any) bool { s, ok := obj.(*subs); return ok && s == v.s }
+
+// VerifSubChan returns the message channel of a subscription object passed to a subs.* hook (nil otherwise).
+func VerifSubChan(obj any) <-chan PubSubMessage {
+	if sb, ok := obj.(*sub); ok {
+		return sb.ch
+	}
+	return nil
+}
